@@ -94,6 +94,22 @@ def numberedAsLoaded (num : BioFeature → Option Int) (fs : List BioFeature) : 
        | some a, some b => decide (a < b)
        | _, _ => false)
 
+/-- ties: features of one kind (`fs` in file order, `num` reading their own number) that a loading record cannot
+    tell apart by position and size are numbered by it in the order in which they stand in the file
+    (`Record.add_protocluster` / `add_subregion` insert behind equals), so the one standing first must carry the
+    smaller number.  File order of equals is the order of their record-wide numbers, so this is what the last
+    component of `_number_by_position`'s sort key is for.  Used for protoclusters and subregions; where equal
+    candidate clusters stand in the file depends on `sorted(all_features)` meeting `CDSCollection.__lt__`'s
+    child shortcut, so for them the harness compares, number by number, what a number stands for before and
+    after loading the file instead. -/
+def tiesInFileOrder (num : BioFeature → Option Int) : List BioFeature → Bool
+  | [] => true
+  | f :: rest =>
+    (rest.all fun g => loadKey f.loc != loadKey g.loc ||
+      (match num f, num g with
+       | some a, some b => decide (a < b)
+       | _, _ => false)) && tiesInFileOrder num rest
+
 def ofType (t : String) (fs : List BioFeature) : List BioFeature := fs.filter (·.type == t)
 
 def inRange (n : Nat) (xs : List Int) : Bool := xs.all fun x => decide (1 ≤ x) && decide (x ≤ (n : Int))
@@ -289,6 +305,15 @@ def GoodNumbering (rd : RegionData) (L : Int) (areas : List (Int × Loc)) (ν : 
   (∀ a m, dictGet ν a = .ok m → 1 ≤ m ∧ m ≤ areas.length ∧ ∃ la, (a, la) ∈ areas) ∧
   (∀ a b la lb m m', (a, la) ∈ areas → (b, lb) ∈ areas → dictGet ν a = .ok m → dictGet ν b = .ok m' →
     ((m ≤ m' ↔ keyLe (positionKey rd L a la) (positionKey rd L b lb) = true) ∧ (m = m' → a = b)))
+
+/-- the tie rule of a renumbering `ν`: areas at the same position in the region file with the same size are
+    numbered in the order of their record-wide numbers (not, say, in the order in which the region's candidates
+    happen to list them) -/
+def TiesByRecordNumber (rd : RegionData) (L : Int) (areas : List (Int × Loc)) (ν : List (Int × Int)) : Prop :=
+  ∀ a b la lb m m', (a, la) ∈ areas → (b, lb) ∈ areas → dictGet ν a = .ok m → dictGet ν b = .ok m' →
+    (positionKey rd L a la).1 = (positionKey rd L b lb).1 →
+    (positionKey rd L a la).2.1 = (positionKey rd L b lb).2.1 →
+    (m < m' ↔ a < b)
 
 /-! ### the numbers written follow the order in which a loaded record numbers the areas -/
 
